@@ -618,7 +618,7 @@ ALPHABET = {
             ("dis", None), ("dis", 1), ("with", ("rb",), ()), ("with", ("rc",), ()), ("exit",), ("raise",),
             ("probe", ("base", U(yard=1))), ("def", "smoot")],
     "tiny": [("en", ("rb",), ()), ("dis", None), ("with", ("rc",), ()), ("exit",), ("def", "smoot")],
-    "lean": [("en", ("ra",), ()), ("en", ("rb",), ()), ("en", ("rc",), ()), ("en", ("rd",), ()),
+    "lean": [("en", ("ra",), ()), ("en", ("rb",), ()), ("en", ("rc",), ()),
              ("en", ("re",), ()), ("dis", None), ("with", ("rc",), ()), ("exit",), ("raise",),
              ("probe", ("base", U(yard=1))), ("def", "smoot")],
     "full": [("en", ("ra",), ()), ("en", ("ra",), kwt(n=5)), ("en", ("rb",), ()), ("en", ("rc",), ()),
